@@ -210,6 +210,13 @@ def gen(repo):
     guards.append(("http_scrape_cut_before_split",
                    re.search(r"info_hashes\s*\.into_iter\(\)\s*\.take\(\s*self\s*\.config\s*\.protocol\s*\.max_scrape_torrents\s*\)", http_conn) is not None,
                    "crates/http/src/workers/socket/connection.rs handle_request"))
+    ws_conn = strip_comments(read(repo, "crates/ws/src/workers/socket/connection.rs"))
+    guards.append(("ws_scrape_cut_before_split",
+                   re.search(r"\.take\(\s*self\s*\.config\s*\.protocol\s*\.max_scrape_torrents\s*\)", ws_conn) is not None,
+                   "crates/ws/src/workers/socket/connection.rs handle_scrape_request"))
+    guards.append(("ws_scrape_empty_answered",
+                   re.search(r"if\s+info_hashes_by_worker\s*\.is_empty\(\)", ws_conn) is not None,
+                   "crates/ws/src/workers/socket/connection.rs handle_scrape_request"))
     for name, val, src in guards:
         out.append("(* %s *)" % src)
         out.append("Definition %s : bool := %s." % (name, "true" if val else "false"))
